@@ -199,6 +199,19 @@ Section C01Gen.
     exact (gen_run_trace_exact check_table run_table cb dotted other_kind sorted_steps
              C01_run_table_wf flows C01_run_flow_wf).
   Qed.
+  (* C01_history_any_pipelines on the regenerated flow: EVERY history of check/run calls of arbitrary pipelines
+     (each run with n >= 1 scales) through the regenerated check_conf / pandora.run on one machine object that
+     starts clean returns, call by call, what the same call returns on a machine that has never been used, as long
+     as the earlier calls returned successfully *)
+  Theorem C01_gen_history_any_pipelines : forall h st, clean (f_m st) ->
+    forallb scales_ok h = true ->
+    earlier_successful check_table run_table ok h = true ->
+    flow_history check_table run_table cb dotted other_kind sorted_steps flows st h
+    = map (fresh_outcome check_table run_table ok) h.
+  Proof.
+    exact (gen_history_fresh check_table run_table cb dotted other_kind sorted_steps
+             C01_check_table_wf C01_run_table_wf flows C01_check_flow_wf C01_run_flow_wf).
+  Qed.
 End C01Gen.
 
 (* The guard of C01_history_any_pipelines is needed: after a REJECTED check
@@ -276,6 +289,7 @@ Print Assumptions C01_gen_check_accepts_iff.
 Print Assumptions C01_gen_check_restores.
 Print Assumptions C01_gen_reject_is_machine_error.
 Print Assumptions C01_gen_run_trace_exact.
+Print Assumptions C01_gen_history_any_pipelines.
 Print Assumptions C01_run_table_wf.
 Print Assumptions C01_path_iff_shape.
 Print Assumptions C01_check_accepts_iff.
